@@ -100,7 +100,20 @@ def mode_body(ctx, case):
         for k in range(1, cnt):
             if N >= 4 and np.all(np.isfinite(full[k])):
                 ctx.close(float(full[k].max() - full[k].min()), 1.0, 1e-10, "p2v normalisation: max-min == 1", scale=1.0)
-    # rotation: unit combination of the (cos, sin) pair
+    # rotation: the rotated cosine and sine modes of a pair must be ONE proper rotation of the unrotated pair
+    if rot != 0.0 and N >= 16:
+        for nn, am in ((1, 1), (2, 2), (3, 1), (4, 2), (5, 3)):
+            zc, zs = noll.mode(nn, am, N)[0], noll.mode(nn, -am, N)[0]
+            Amat = np.stack([zc.ravel(), zs.ravel()], axis=1)
+            rows = []
+            for mm in (am, -am):
+                zr = z.zernike_nm(nn, mm, N, rot)
+                ab, *_ = np.linalg.lstsq(Amat, zr.ravel(), rcond=None)
+                ctx.close(Amat @ ab, zr.ravel(), 1e-9, "rotated mode lies in the span of its (cos, sin) pair", scale=math.sqrt(2 * (nn + 1)) * 2 ** max(0, nn - 2), name="rotated mode in span")
+                rows.append(ab)
+            Rm = np.array(rows)
+            ctx.close(Rm @ Rm.T, np.eye(2), 1e-8, "rotated cosine and sine modes stay orthonormal (the pair is rotated as a whole)", scale=1.0, name="rotation of the pair is orthogonal")
+            ctx.close(float(np.linalg.det(Rm)), 1.0, 1e-8, "rotated pair keeps its orientation (proper rotation)", scale=1.0, name="rotation of the pair is proper")
     if rot != 0.0 and norm == "noll" and N >= 8:
         for j in js[:3]:
             nn, mm = int(nt[j]) if j <= j0 else int(noll.noll_table(j)[0][j]), None
